@@ -80,28 +80,40 @@ Definition adler_s (s : string) : N := adler (bytes_of_string s).
 Definition hset (l : list string) : N := (fold_left (fun a x => a + adler_s x) l 0 mod 4294967296)%N.
 Definition hmembers (l : list nat) : N :=
   (fold_left (fun a q => a + (N.of_nat q + 1) * (N.of_nat q + 1) * 2654435761) l 0 mod 4294967296)%N.
-Definition hconn (s : state) (q : nat) : string :=
-  let c := conns s q in
-  (show_nat q ++ ":" ++ show_nat (List.length (out c)) ++ ":" ++ bit (closing c) ++ bit (rpaused c) ++ bit (copen c)
-   ++ ":" ++ match ak c with Some i => fp i | None => "-" end
-   ++ ":" ++ show_nat (List.length (pending c)) ++ ":" ++ show_nat (List.length (buf c))
-   ++ ":{" ++ show_N (hset (map fp (active c))) ++ "}")%string.
-Definition hreg (s : state) : N :=
-  hset (map (fun c => (fp c ++ "=" ++ show_N (hmembers (subs s c)))%string)
-            (filter (fun c => negb (Nat.eqb (List.length (subs s c)) 0)) (chans_of s))).
-Definition hgauges (s : state) : string :=
+(* aspects of the observable state, each fingerprinted separately so that a check can compare exactly
+   the projection its property is about:
+     D deliveries (PUBLISH frames per connection)   W everything written per connection
+     F closing / still-registered flags              R registry and per-connection subscription sets
+     G gauges and counters                           A authenticated ident per connection
+     B read-side bookkeeping (reading paused, lookups pending, bytes buffered) *)
+Definition per_conn (s : state) (f : nat -> conn -> string) : string :=
+  join " "%string (map (fun q => (show_nat q ++ ":" ++ f q (conns s q))%string) (rev (ids s))).
+Definition is_pub (f : frame) : bool := match f with FPub _ _ _ => true | _ => false end.
+Definition aspD (s : state) : string :=
+  per_conn s (fun _ c => join ","%string (map show_bframe (rev (filter is_pub (out c))))).
+Definition aspW (s : state) : string :=
+  per_conn s (fun _ c => join ","%string (map show_bframe (rev (out c)))).
+Definition aspF (s : state) : string := per_conn s (fun _ c => (bit (closing c) ++ bit (copen c))%string).
+Definition aspR (s : state) : string :=
+  (per_conn s (fun _ c => ("{" ++ show_N (hset (map fp (active c))) ++ "}")%string) ++ "|R{" ++
+   show_N (hset (map (fun c => (fp c ++ "=" ++ show_N (hmembers (subs s c)))%string)
+            (filter (fun c => negb (Nat.eqb (List.length (subs s c)) 0)) (chans_of s)))) ++ "}")%string.
+Definition aspG (s : state) : string :=
   (show_Z (g_conn s) ++ "," ++ show_Z (g_made s) ++ "," ++ show_Z (g_lost s) ++ ",{" ++
    show_N (hset (map (fun e => (fp (fst (fst e)) ++ "/" ++ fp (snd (fst e)) ++ "=" ++ show_Z (snd e))%string) (g_subs s))) ++ "}")%string.
-Definition hstate (s : state) : N :=
-  adler_s (join " " (map (hconn s) (rev (ids s))) ++ "|R{" ++ show_N (hreg s) ++ "}|G" ++ hgauges s)%string.
+Definition aspA (s : state) : string := per_conn s (fun _ c => match ak c with Some i => fp i | None => "-"%string end).
+Definition aspB (s : state) : string :=
+  per_conn s (fun _ c => (bit (rpaused c) ++ ":" ++ show_nat (List.length (pending c)) ++ ":" ++ show_nat (List.length (buf c)))%string).
+Definition aspects (s : state) : list N :=
+  map adler_s [aspD s; aspW s; aspF s; aspR s; aspG s; aspA s; aspB s].
 Fixpoint run_events_h (name : bytes) (st : ident -> lookup) (async : bool) (s : state) (es : list cevent) : list N :=
   match es with
   | [] => []
   | e :: t =>
       let s' := fold_left (step name st async) (events_of e) s in
-      hstate s' :: run_events_h name st async s' t
+      (aspects s' ++ run_events_h name st async s' t)%list
   end.
+(* seven fingerprints per event *)
 Definition run_broker (name : bytes) (db : list (bytes * option (bytes * list bytes * list bytes))) (async : bool)
                       (es : list cevent) : list N :=
-  (run_events_h name (lookup_db db) async state0 es ++
-   map adler_s (show_outs (final_state name (lookup_db db) async es)))%list.
+  run_events_h name (lookup_db db) async state0 es.
